@@ -415,6 +415,22 @@ def gen_c16(rng, tier):
         steps += [st('batch') for _ in mid + post]
         steps += [st('sleep', ms=11 + rng.below(4)), st('release'), st('sleep', ms=12 + rng.below(15)), st('end')]
         cases.append(c16_case(f'race-{i}', batches, steps, family='race'))
+    # (a2) a bad-data report is being sent (held) while the next batch is rejected and the one after
+    #      it accepted: the ack of the later batch must not overtake the second bad-data report
+    for i in range(40 * scale):
+        pre = [(1 + rng.below(4), 'o')] if rng.chance(1, 3) else []
+        a = [(1 + rng.below(6), 'p')]
+        b = [(1 + rng.below(6), 'p') for _ in range(1 + rng.below(2))]
+        c = [(1 + rng.below(6), 'o') for _ in range(1 + rng.below(2))]
+        batches = pre + a + b + c
+        k = 1 if pre else 0
+        steps = []
+        if pre:
+            steps += [st('batch'), st('sleep', ms=12 + rng.below(4))]
+        steps += [st('hold', k=k), st('batch'), st('waitsend', k=k)]
+        steps += [st('batch') for _ in b + c]
+        steps += [st('sleep', ms=11 + rng.below(4)), st('release'), st('sleep', ms=14 + rng.below(15)), st('end')]
+        cases.append(c16_case(f'race2-{i}', batches, steps, family='race'))
     # (b) random scripts
     for i in range(150 * scale):
         nb = 1 + rng.below(8)
